@@ -67,7 +67,8 @@ def run(ck):
             conv = [c for c in p.calls() if c[1] in CONVERTERS]
             a = p.calls('is_ascii_domain')
             if not conv:
-                if not (p.passed('(start == end)', True) and p.ret()[1] == '-EEAV_DOMAIN_EMPTY'): extra.append(f'path without conversion returns {p.ret()[1]}')
+                empty = p.passed('(start == end)', True) or p.passed('(end == start)', True) or p.passed('(start != end)', False) or p.passed('(end != start)', False) or p.passed('((end - start) == 0)', True)
+                if not (empty and p.ret()[1] == '-EEAV_DOMAIN_EMPTY'): extra.append(f'path without conversion returns {p.ret()[1]}')
                 continue
             if not a:
                 if p.ret()[1] != '-EEAV_IDN_ERROR': extra.append(f'path without is_ascii_domain returns {p.ret()[1]}')
